@@ -688,6 +688,9 @@ class SymEx:
                     else:
                         val = ('adt', 'std::option::Option', 'None', (), ())
                         st.write(args[0][1][0], args[0][1][1], it)
+                if lastn == 'flatten' and 'option::Option' in name and len(args) == 1 and strip_refs(args[0])[0] == 'adt' and strip_refs(args[0])[2] in ('Some', 'None'):
+                    a0_ = strip_refs(args[0])
+                    val = a0_[4][0] if a0_[2] == 'Some' else ('adt', 'std::option::Option', 'None', (), ())
                 if lastn in ('is_some', 'is_none') and 'option::Option' in name and len(args) == 1 and strip_refs(args[0])[0] == 'adt' and strip_refs(args[0])[2] in ('Some', 'None'):
                     val = ('const', int((strip_refs(args[0])[2] == 'Some') == (lastn == 'is_some')))
                 if gen.endswith('ops::Try::branch') and len(args) == 1 and (t.get('dest_ty') or '').startswith('std::ops::ControlFlow<std::option::Option<'):
